@@ -412,13 +412,18 @@ class SpecMixin(object):
       base = len(s2.pc)
       for _s, _c in self.assign(s2, g.target, elem_of(s2, i)):
         pass
-      guard = z3.And(i >= 0, i < n, *s2.pc[base:])
+      g0, a0 = s2.split_delta(base)
+      guard = z3.And(i >= 0, i < n, *g0)
+      shape_facts = a0
       conds = []
       for cond in g.ifs:
         conds.append(self.eval_merged_bool(s2, cond))
       body = self.eval_merged_bool(s2, node.elt)
     finally:
       self.spec_mode = saved_mode
+    # shape facts about the bound element are quantified axioms
+    for a in shape_facts:
+      st.axiom(z3.ForAll([i], z3.Implies(z3.And(i >= 0, i < n), a)))
     if universal:
       return z3.ForAll([i], z3.Implies(z3.And(guard, *conds), body))
     return z3.Exists([i], z3.And(guard, *(conds + [body])))
@@ -430,12 +435,22 @@ class SpecMixin(object):
     disj = []
     for s2, v in self.eval(s, expr):
       if isinstance(v, Raised):
+        self.lift_axioms(st, s2, base)
         continue
       for s3, b in self.truth(s2, v):
-        disj.append(z3.And(*(s3.pc[base:] + [b])))
+        guards = self.lift_axioms(st, s3, base)
+        disj.append(z3.And(*(guards + [b])))
     if not disj:
       return z3.BoolVal(False)
     return disj[0] if len(disj) == 1 else z3.Or(*disj)
+
+  def lift_axioms(self, st, sub, base):
+    """Move the axioms a sub-evaluation produced into st (unconditionally valid); return the remaining guards."""
+    guards, axioms = sub.split_delta(base)
+    for a in axioms:
+      if a.get_id() not in st.ax:
+        st.axiom(a)
+    return guards
 
   # ------------------------------------------------------------------ spec evaluation
   def parse_spec(self, expr):
@@ -471,7 +486,8 @@ class SpecMixin(object):
     base = len(st.pc)
     disj = []
     for s, b in self.eval_spec(st, expr, extra):
-      disj.append(z3.And(*(s.pc[base:] + [b])))
+      guards = self.lift_axioms(st, s, base)
+      disj.append(z3.And(*(guards + [b])))
     if not disj:
       return z3.BoolVal(False)
     return disj[0] if len(disj) == 1 else z3.Or(*disj)
